@@ -521,7 +521,9 @@ func main() {
 	os.WriteFile(filepath.Join(evidenceDir, prop+".json"), js, 0o644)
 	fmt.Printf("check %s tier=%s: %d variants, %d executions (%d pruned), %d states, %d steps, %d outcome classes, exhaustive=%v, %.1fs\n",
 		prop, tier, len(jobs), execs, pruned, states, transitions, outcomes, exhaustive, time.Since(start).Seconds())
-	os.RemoveAll(work)
+	if os.Getenv("VERIF_KEEP_WORK") == "" { // debugging aid: keep the instrumented overlay and the worker binaries
+		os.RemoveAll(work)
+	}
 	if nviol > 0 {
 		os.Exit(1)
 	}
